@@ -3,7 +3,7 @@
 (* Parser instances and their API (tree/peg.go.tmpl: Init, Buffer, Reset,  *)
 (* Parse, Execute, observers) for N instances used from one or several     *)
 (* goroutines.  Each instance follows the documented call sequence          *)
-(*      Init ; (Buffer := w ; Reset ; Parse ; Execute ; observe)*           *)
+(*      Init ; (Buffer := w ; Reset ; Parse ; [Parse] ; Execute ; observe)* *)
 (* and the requirement (C12, C14) is that what an instance returns depends *)
 (* only on its own last input: any interleaving of the calls of different  *)
 (* instances gives every instance its solo result, and a reused instance   *)
@@ -19,6 +19,8 @@ CONSTANTS Inst,       \* set of instance ids
           MaxParses   \* bound on parses per instance
 
 Result(w) == <<"result-of", w>>      \* uninterpreted: stands for verdict, tokens, tree, actions, error of input w
+Continued(w) == <<"continued", w>>   \* ... of Parse called once more without Reset: it goes on at the position the
+                                     \* first call stopped at, with the tokens, furthest token and memo table it left
 
 VARIABLES inst     \* [Inst -> [pc, buf, memoOf (input whose memo entries / tokens / maxToken the closure holds), out, parses]]
 vars == <<inst>>
@@ -34,16 +36,19 @@ Reset(i) == inst[i].pc = "buffered" /\ inst' = [inst EXCEPT ![i].holds = "none",
 \* Parse fills the closure state from the current buffer only
 Parse(i) == inst[i].pc = "reset"
             /\ inst' = [inst EXCEPT ![i].holds = inst[i].buf, ![i].out = Result(inst[i].buf), ![i].pc = "parsed", ![i].parses = @ + 1]
+\* a second Parse without Reset (statement-at-a-time use): still a function of the instance's own buffer only
+ParseAgain(i) == inst[i].pc = "parsed" /\ inst[i].out = Result(inst[i].buf)
+                 /\ inst' = [inst EXCEPT ![i].out = Continued(inst[i].buf)]
 Execute(i) == inst[i].pc = "parsed" /\ inst' = [inst EXCEPT ![i].pc = "executed"]
 Observe(i) == inst[i].pc \in {"parsed", "executed"} /\ inst' = [inst EXCEPT ![i].pc = "observed"]
 
-Next == \E i \in Inst : DoInit(i) \/ (\E w \in Inputs : SetBuffer(i, w)) \/ Reset(i) \/ Parse(i) \/ Execute(i) \/ Observe(i)
+Next == \E i \in Inst : DoInit(i) \/ (\E w \in Inputs : SetBuffer(i, w)) \/ Reset(i) \/ Parse(i) \/ ParseAgain(i) \/ Execute(i) \/ Observe(i)
 Spec == Init /\ [][Next]_vars
 
 \* C14: a step of instance i leaves every other instance unchanged
 Confinement == [][\A i \in Inst : (inst'[i] # inst[i]) => \A j \in Inst \ {i} : inst'[j] = inst[j]]_vars
 \* C12: whatever happened before, what an instance shows is the result of its current input alone
-FreshEquivalence == \A i \in Inst : inst[i].pc \in {"parsed", "executed", "observed"} => inst[i].out = Result(inst[i].buf)
+FreshEquivalence == \A i \in Inst : inst[i].pc \in {"parsed", "executed", "observed"} => inst[i].out \in {Result(inst[i].buf), Continued(inst[i].buf)}
 \* nothing of an earlier input is held when a parse starts
 ResetClean == \A i \in Inst : inst[i].pc = "reset" => inst[i].holds = "none"
 =============================================================================
